@@ -84,7 +84,7 @@ CLAIMS["C17"] = dict(
 CLAIMS["C14"] = dict(
   level="other",
   technique="static analysis: receiver/only-writer checks on the virtual line, shape and ordering of the Move/Cut/InsertAt triple (sibling agreement), guard facts in abort, must-pass-through in the main loop",
-  text="Decides that candidate insertion edits only a fresh copy of the line, that both insertion paths replace exactly [pos-len(prefix), pos) by the prepared candidate, that cancelling restores the virtual line from the real one, that abort only cancels while a completion is active, and that UpdateInserted separates the two keymap dispatches. Unit correctness of len(prefix) and text equality are not decided here (unit findings are reported separately). Also: the prefix is looked up from Pos()-1 unclamped; abort does not return while the menu-select keymap is active; Select enters the menu keymap before the selector moves.",
+  text="Decides that candidate insertion edits only a fresh copy of the line, that both insertion paths replace exactly [pos-len(prefix), pos) by the prepared candidate, that cancelling restores the virtual line from the real one, that abort only cancels while a completion is active, and that UpdateInserted separates the two keymap dispatches. Unit correctness of len(prefix) and text equality are not decided here (unit findings are reported separately). Also: the prefix is looked up from Pos()-1 unclamped; abort does not return while the menu-select keymap is active; Select enters the menu keymap before the selector moves; TrimSuffix removes the character before the cursor only when the candidate's suffix matcher designates it; wherever a candidate becomes part of the real line the prefix is emptied before returning (accept-and-menu-complete).",
   ref="§5 C14")
 
 CLAIMS["C01"] = dict(
